@@ -101,6 +101,11 @@ VARIANTS = [
          old="        # else need to *reconstruct* the tree from the more compact path\n        return self._reconstruct_tree(inputs, output, size_dict, con)",
          new="        try:\n            return con[\"tree\"]\n        except KeyError:\n            tree = con[\"tree\"] = self._reconstruct_tree(inputs, output, size_dict, con)\n            return tree",
          expect=("C13-REUSABLE", "search")),
+    dict(name="seed C13_9: re-registration drops the name resolution memo only", kind="break", file=I,
+         old="        _PRESETS_PATH[preset] = optimizer\n", new="        _PRESETS_PATH[preset] = optimizer\n        preset_to_optimizer.cache_clear()\n",
+         expect=("C13-INVALIDATE", "register_preset")),
+    dict(name="twin: re-registration drops the memo and both tables", kind="twin", file=I,
+         old="        _PRESETS_PATH[preset] = optimizer\n", new="        _PRESETS_PATH[preset] = optimizer\n        preset_to_optimizer.cache_clear()\n        _PATH_CACHE.clear()\n        _CONTRACT_EXPR_CACHE.clear()\n"),
 ]
 for v in VARIANTS:
     if v.get("edits"):
